@@ -62,6 +62,7 @@ import (
 	"context"
 	"errors"
 	"fmt"
+	"runtime/debug"
 	"sort"
 	"strconv"
 	"strings"
@@ -93,6 +94,39 @@ type callRec struct {
 	Recording  bool     // start: span.IsRecording()
 	Noop       bool     // logger: the handle is a noop.Logger
 	Handle     *callRec // start/emit/inst: the tracer/logger/meter call that produced the handle (nil = base handle)
+	Panic      string   // the call panicked (value and stack)
+}
+
+// guard runs one op and records a panic of the code under test instead of
+// letting it kill the process from a harness goroutine.
+func guard(rec *callRec, f func()) {
+	defer func() {
+		if p := recover(); p != nil {
+			rec.Panic = fmt.Sprintf("%v\n%s", p, debug.Stack())
+		}
+	}()
+	f()
+}
+
+func panicViolations(calls []*callRec) []vk.Violation {
+	var vs []vk.Violation
+	for _, c := range calls {
+		if c.Panic != "" {
+			first := c.Panic
+			if i := strings.IndexByte(first, '\n'); i >= 0 {
+				first = first[:i]
+			}
+			vs = append(vs, vk.Violation{Kind: "panic", Msg: fmt.Sprintf("%s %s (goroutine %d, op %d) panicked: %s", c.K, ctxName(c), c.G, c.I, first), Observed: c.Panic})
+		}
+	}
+	return vs
+}
+
+func ctxName(c *callRec) string {
+	if c.C != 0 {
+		return "ctx=cancelled"
+	}
+	return "ctx=live"
 }
 
 func (c *callRec) String() string {
@@ -166,7 +200,11 @@ func attachHistory(vs []vk.Violation, h []string) {
 	if len(h) > 500 {
 		h = h[:500]
 	}
-	vs[0].Observed = h
+	if vs[0].Observed != nil {
+		vs[0].Observed = map[string]any{"detail": vs[0].Observed, "history": h}
+	} else {
+		vs[0].Observed = h
+	}
 }
 
 func contains(xs []int, x int) bool {
